@@ -148,7 +148,7 @@ def run(ctx):
             if len(cls) == 1 and k != "draw" and r.random() < 0.6:
                 # three men: no capture can prolong a win, so the 50-move window is exact — probe both sides of the boundary
                 plies = 2 * int(v.split()[1]) - (1 if k == "win" else 0)
-                t = f.split(); t[4] = str(max(0, (100 if r.random() < 0.5 else 101) - plies)); f = " ".join(t)
+                t = f.split(); t[4] = str(min(99, max(0, (100 if r.random() < 0.5 else 101) - plies))); f = " ".join(t)      # the property quantifies over clocks 0..99
             el.append((f, v))
             if len(el) >= per: break
         rc, ex, _ = vlib.run_lines(vlib.driver_bin(), [f"tb13 expect {v.split()[0]} {v.split()[1] if ' ' in v else 0} {f.split()[4]}" for f, v in el])
@@ -216,16 +216,36 @@ def audit(ctx, vh, recs):
                 lines.append(f"chess line {rec['fen']} " + " ".join(pv[:k]))
         rc, lo, _ = vlib.run_lines(vlib.driver_bin(), lines)
         i = 0
+        short = []      # announcements whose PV stops early (at a tablebase hit): judged by the exact value of the PV's last position
         for rec, base, last, n, m, sign_ok, plies in late:
             pv = last.get("pv", [])
             res = lo[i:i + len(pv)]; i += len(pv)
-            ok = sign_ok and abs(m) >= n and len(pv) == plies and all(x.startswith("ok") for x in res)
+            ok = sign_ok and abs(m) >= n and 0 < len(pv) <= plies and all(x.startswith("ok") for x in res)
             if ok:
                 # clock along the line: FEN field 5 of each prefix; must stay < 100 except at the final (mated) position
                 clocks = [int(x.split()[6]) for x in res]
-                ok = all(c < 100 for c in clocks[:-1]) and "legal=0" in res[-1] and "chk=1" in res[-1]
+                if len(pv) == plies:
+                    ok = all(c < 100 for c in clocks[:-1]) and "legal=0" in res[-1] and "chk=1" in res[-1]
+                else:
+                    ok = all(c < 100 for c in clocks)
+                    if ok: short.append((rec, base, last, m, plies, len(pv), " ".join(res[-1].split()[2:8]))); continue
             if not ok:
                 ctx.violation(f"root `{rec['fen']}` (exact value `{rec['value']}`, clock {rec['fen'].split()[4]}): announced `mate {m}` is not supported by its PV under the 50-move rule: {last['raw']}", base)
+        if short:
+            rc, dv, _ = vlib.run_lines(vh, [f"dtm of {x[6]}" for x in short])
+            for (rec, base, last, m, plies, k, leaf), v in zip(short, dv):
+                winner_to_move = (m > 0) == (k % 2 == 0)
+                t = v.split()
+                good = len(t) == 2 and t[0] == ("win" if winner_to_move else "loss")
+                if good:
+                    leaf_plies = 2 * int(t[1]) - 1 if winner_to_move else 2 * int(t[1])
+                    good = leaf_plies <= plies - k
+                    men = sum(1 for c in leaf.split()[0] if c.isalpha())
+                    if good and men == 3: good = int(leaf.split()[4]) + leaf_plies <= 100      # three men: no capture can reset the clock any more
+                    elif good: ctx.cov["late_mates_short_pv_unverified_clock"] = ctx.cov.get("late_mates_short_pv_unverified_clock", 0) + 1
+                if not good:
+                    ctx.violation(f"root `{rec['fen']}` (exact value `{rec['value']}`, clock {rec['fen'].split()[4]}): announced `mate {m}`; its PV ends after {k} plies in `{leaf}` whose exact value `{v}` "
+                                  f"does not support the announcement under the 50-move rule: {last['raw']}", {**base, "leaf": leaf, "leaf_value": v})
         ctx.cov.setdefault("late_mates_accepted_by_pv_replay", 0)
         ctx.cov["late_mates_accepted_by_pv_replay"] += len(late)
     if not q1: return
